@@ -692,7 +692,8 @@ func c18R7(e *Engine) {
 				continue
 			}
 			fn := ms[name]
-			instrs(fn, func(in ssa.Instruction) {
+			seenC := map[string]bool{}
+			e.walkLocal(role, fn, 2, func(in ssa.Instruction, ctx []callCtx) { // the call may sit in a helper shared by several operations
 				c, ok := in.(*ssa.Call)
 				if !ok || c.Call.StaticCallee() == nil || e.fnRole(c.Call.StaticCallee()) != "core" || len(c.Call.Args) == 0 {
 					return
@@ -700,7 +701,16 @@ func c18R7(e *Engine) {
 				if nt := namedOf(c.Call.Args[0].Type()); nt == nil || nt.Obj().Name() != "Table" {
 					return
 				}
+				for _, cc := range ctx {
+					if _, isData := dataOpNames[cc.callee.Name()]; isData {
+						return // reached through another data operation (a batch re-entering PutItem): judged there
+					}
+				}
 				construct := role + ".Client." + name + "->" + strings.TrimPrefix(e.fname(c.Call.StaticCallee()), "core.")
+				if seenC[construct] {
+					return
+				}
+				seenC[construct] = true
 				// receiver: a value of Client.tables looked up under the request's own TableName (possibly through helpers)
 				ros, kos := e.originsAndKeys(c.Call.Args[0])
 				ro, ao := strings.Join(ros, "|"), strings.Join(kos, "|")
